@@ -1216,7 +1216,7 @@ def run(ctx: core.Ctx) -> None:
     ctx.rule = (
         f'per structured lump (planes, vertexes, texture names, texinfo+texdata, surfedges+edges, primitives, faces, original faces, HDR '
         f'faces, brushes+sides, leafs (+leaf faces/brushes/min-dist), nodes, water leaf info, visibility, brush models+physics+entity link, '
-        f'cubemaps, overlays (+fades, levels), static props V4..V13 + lightmap v7/v10 + Mesa, detail props, entity lump): lists of length '
+        f'cubemaps, overlays (+fades, levels), static props V4..V13 + lightmap v7/v10 + Mesa, detail props, pakfile, entity lump): lists of length '
         f'0,1,2,3 on all 7 layouts; on one representative layout per distinct on-disk struct: every record position (n<=2; last for n=3) x '
         f'every field x every boundary value of its on-disk type (ints 0,1,-1,min,max; float32 0,-0,1.5,2^-10,max,-1; every enum member; every '
         f'single flag bit; names of 0..127/128 chars) with <= {depth} field(s) deviated' + (' (pairs on single-record lists)' if depth > 1 else '') +
